@@ -14,14 +14,19 @@
 (***************************************************************************)
 EXTENDS Naturals, Sequences, FiniteSets, TLC
 
-CONSTANTS Streams, MaxSent, MaxWrite, MaxMsg, MaxTotal, MaxClose, Bufs
+CONSTANTS Streams, MaxSent, MaxWrite, MaxMsg, MaxTotal, MaxClose, Bufs,
+          Glitches   \* subset of {"dataerr", "temperr", "shortwrite"}: glitches of the underlying connection
 
 Dirs == {"ab", "ba"}
 Chans == Streams \X Dirs
 
-VARIABLES opened, sent, wire, rbuf, wfin, rfin, delivered, eof, op
-vars == <<opened, sent, wire, rbuf, wfin, rfin, delivered, eof, op>>
-View == <<opened, sent, wire, rbuf, wfin, rfin, delivered, eof>>
+VARIABLES opened, sent, wire, rbuf, wfin, rfin, delivered, eof,
+          loose,   \* a glitch of the underlying connection was armed: the session may end at any moment from here
+                   \* on (the muxer treats every error of the connection as fatal) or go on untouched (io.ReadFull
+                   \* had its bytes); the model goes on as if intact, only the statement's clauses are judged
+          op
+vars == <<opened, sent, wire, rbuf, wfin, rfin, delivered, eof, loose, op>>
+View == <<opened, sent, wire, rbuf, wfin, rfin, delivered, eof, loose>>
 
 Min(a, b) == IF a < b THEN a ELSE b
 IsPrefix(s, t) == Len(s) <= Len(t) /\ \A i \in 1..Len(s) : s[i] = t[i]
@@ -31,7 +36,7 @@ SumSent(S) == IF S = {} THEN 0 ELSE LET c == CHOOSE x \in S : TRUE IN sent[c] + 
 
 Init == /\ opened = {} /\ sent = [c \in Chans |-> 0] /\ wire = [d \in Dirs |-> <<>>]
         /\ rbuf = [c \in Chans |-> <<>>] /\ wfin = [c \in Chans |-> FALSE] /\ rfin = [c \in Chans |-> FALSE]
-        /\ delivered = [c \in Chans |-> <<>>] /\ eof = [c \in Chans |-> FALSE] /\ op = [name |-> "init"]
+        /\ delivered = [c \in Chans |-> <<>>] /\ eof = [c \in Chans |-> FALSE] /\ loose = FALSE /\ op = [name |-> "init"]
 
 \* streams are opened in increasing order per opener (the real ids are allocated that way)
 Open(s) ==
@@ -39,7 +44,7 @@ Open(s) ==
   /\ \A t \in Streams : (t < s /\ t % 2 = s % 2) => t \in opened
   /\ opened' = opened \cup {s}
   /\ op' = [name |-> "open", s |-> s, by |-> IF s % 2 = 1 THEN "a" ELSE "b"]
-  /\ UNCHANGED <<sent, wire, rbuf, wfin, rfin, delivered, eof>>
+  /\ UNCHANGED <<sent, wire, rbuf, wfin, rfin, delivered, eof, loose>>
 
 NFrames(k) == (k + MaxMsg - 1) \div MaxMsg
 Write(s, d, k) ==
@@ -52,7 +57,7 @@ Write(s, d, k) ==
      IN wire' = [wire EXCEPT ![d] = @ \o fs]
   /\ sent' = [sent EXCEPT ![<<s, d>>] = @ + k]
   /\ op' = [name |-> "write", s |-> s, d |-> d, k |-> k]
-  /\ UNCHANGED <<opened, rbuf, wfin, rfin, delivered, eof>>
+  /\ UNCHANGED <<opened, rbuf, wfin, rfin, delivered, eof, loose>>
 
 CloseWrite(s, d) ==
   /\ s \in opened /\ ~wfin[<<s, d>>]
@@ -60,7 +65,7 @@ CloseWrite(s, d) ==
   /\ wfin' = [wfin EXCEPT ![<<s, d>>] = TRUE]
   /\ wire' = [wire EXCEPT ![d] = Append(@, [s |-> s, fin |-> TRUE, pt |-> <<>>])]
   /\ op' = [name |-> "closewrite", s |-> s, d |-> d]
-  /\ UNCHANGED <<opened, sent, rbuf, rfin, delivered, eof>>
+  /\ UNCHANGED <<opened, sent, rbuf, rfin, delivered, eof, loose>>
 
 \* the receiving session's read loop: internal, not driven by the harness
 Pump(d) ==
@@ -70,7 +75,7 @@ Pump(d) ==
        /\ rfin' = [rfin EXCEPT ![c] = @ \/ f.fin]
   /\ wire' = [wire EXCEPT ![d] = Tail(@)]
   /\ op' = [name |-> "pump", d |-> d]
-  /\ UNCHANGED <<opened, sent, wfin, delivered, eof>>
+  /\ UNCHANGED <<opened, sent, wfin, delivered, eof, loose>>
 
 \* Read is offered when the real call is certain to return without further writes: data is buffered for the
 \* stream, or the buffer is empty and the FIN has arrived.  (The harness does not compare byte counts of
@@ -91,9 +96,17 @@ Read(s, d, b) ==
         /\ op' = [name |-> "read", s |-> s, d |-> d, b |-> b, n |-> 0, eof |-> TRUE,
                   halfclosed |-> wfin[<<s, IF d = "ab" THEN "ba" ELSE "ab">>]]
         /\ UNCHANGED <<delivered, rbuf>>
-  /\ UNCHANGED <<opened, sent, wire, wfin, rfin>>
+  /\ UNCHANGED <<opened, sent, wire, wfin, rfin, loose>>
 
-Next == \/ \E s \in Streams : Open(s)
+\* the connection under direction d glitches once (bytes + timeout, temporary error, short write)
+Glitch(d, kind) ==
+  /\ kind \in Glitches /\ ~loose /\ opened # {}
+  /\ loose' = TRUE
+  /\ op' = [name |-> "glitch", d |-> d, kind |-> kind]
+  /\ UNCHANGED <<opened, sent, wire, rbuf, wfin, rfin, delivered, eof>>
+
+Next == \/ \E d \in Dirs, kind \in Glitches : Glitch(d, kind)
+        \/ \E s \in Streams : Open(s)
         \/ \E s \in Streams, d \in Dirs, k \in 1..MaxWrite : Write(s, d, k)
         \/ \E s \in Streams, d \in Dirs : CloseWrite(s, d)
         \/ \E d \in Dirs : Pump(d)
